@@ -285,6 +285,49 @@ func reelection() func(s *vsched.Sched) {
 	}
 }
 
+// Two sessions with different timeouts, then a leader change: each keeps its own timeout.
+func reelectionTwoSessions() func(s *vsched.Sched) {
+	return func(s *vsched.Sched) {
+		e := setup(s)
+		if e == nil {
+			return
+		}
+		long := e.session(20000)
+		short := e.session(2000)
+		if st, err := e.put("kl", "eph", &long); err != nil || st != proto.Status_OK {
+			s.Fail("harness-setup", fmt.Sprint(st, err))
+			return
+		}
+		if st, err := e.put("ks", "eph", &short); err != nil || st != proto.Status_OK {
+			s.Fail("harness-setup", fmt.Sprint(st, err))
+			return
+		}
+		s.Settle()
+		s.Explore(true)
+		_, err := e.lc.NewTerm(&proto.NewTermRequest{Namespace: "ns", Shard: 1, Term: 2, Options: &proto.NewTermOptions{EnableNotifications: true}})
+		if err == nil {
+			_, err = e.lc.BecomeLeader(context.Background(), &proto.BecomeLeaderRequest{Namespace: "ns", Shard: 1, Term: 2, ReplicationFactor: 1, FollowerMaps: map[string]*proto.EntryId{}})
+		}
+		if err != nil {
+			s.Fail("reelection-failed", err.Error())
+			return
+		}
+		s.Sleep(5 * time.Second) // beyond the short timeout, far below the long one; no heartbeats
+		s.Settle()
+		if g := e.get("kl"); g == nil || g.Status != proto.Status_OK {
+			s.Fail("session-expired-early", "a session with a 20 s timeout lost its record 5 s after a leader change (no heartbeat needed yet)")
+		}
+		if st, err := e.put("kl2", "eph", &long); err != nil || st != proto.Status_OK {
+			s.Fail("session-expired-early", fmt.Sprintf("a put naming the 20 s session 5 s after the leader change: status %v err %v", st, err))
+		}
+		if r := e.residue(short); len(r) > 0 {
+			s.Fail("session-residue", fmt.Sprintf("the 2 s session did not expire within 5 s of the leader change: %v", r))
+		}
+		s.Explore(false)
+		_ = e.lc.Close()
+	}
+}
+
 // A replica whose log holds a session (and a record of it) in the part it has not applied yet
 // becomes leader: the session must be alive on it (heartbeats accepted, record present) and
 // must expire, with its record, after a full timeout without heartbeats.
@@ -402,6 +445,7 @@ func scenarios(tier string) []sched.Scenario {
 		{Name: "close-vs-own-ephemeral-put", Cfg: cfg, MaxDev: d, Body: closeVsOwnPut()},
 		{Name: "expiry-vs-heartbeat", Cfg: race, MaxDev: 2, Body: expiryVsHeartbeat()},
 		{Name: "reelection", Cfg: cfg, MaxDev: 1, Body: reelection()},
+		{Name: "reelection-two-sessions", Cfg: cfg, MaxDev: 1, Body: reelectionTwoSessions()},
 		{Name: "election-with-session-in-unapplied-tail", Cfg: cfg, MaxDev: 1, Body: electionWithSessionInUnappliedTail()},
 		{Name: "early-heartbeats", Cfg: cfg, MaxDev: 2, Body: earlyHeartbeats()},
 	}
